@@ -55,6 +55,13 @@ def replay(chk, cases, variants):
             # the spec's "unit" is the mil; the same physical sight expressed in another unit
             vclick = ang_unit(float(Fraction(c["vclick"], 10) * ang_per_mil))
             hclick = ang_unit(float(Fraction(c["hclick"], 10) * ang_per_mil))
+            if pref_adj is None and ci % 4 == 2:
+                # click sizes as BARE numbers: that many of the preferred ADJUSTMENT unit (the angular slot holds something else)
+                m.PreferredUnits.adjustment = ang_unit
+                m.PreferredUnits.angular = U.Degree if ang_unit != U.Degree else U.Mil
+                vclick = float(Fraction(c["vclick"], 10) * ang_per_mil)
+                hclick = float(Fraction(c["hclick"], 10) * ang_per_mil)
+                chk.stratum("click_sizes_as_bare_numbers")
             # the spec's cal = 0 is "no calibration distance": given as None, or - the way a form field says "not set" - as a bare 0
             cal = [None, 0, None, 0.0][ci % 4] if c["cal"] == 0 else dist_unit(float(c["cal"] * dist_per_yd))
             if c["cal"] == 0 and cal is not None:
@@ -75,8 +82,9 @@ def replay(chk, cases, variants):
             if c["tgt"] == 0:
                 continue
             if redisplay:
-                vclick << U.InchesPer100Yd        # the caller looks at its own click objects in another unit
-                hclick << U.CmPer100m
+                if hasattr(vclick, "raw_value"):
+                    vclick << U.InchesPer100Yd        # the caller looks at its own click objects in another unit
+                    hclick << U.CmPer100m
                 chk.stratum("caller_redisplays_click")
             if ci % 4 == 1:
                 # ... at its calibration distance in another unit, and the preferred distance unit changes after construction
@@ -145,7 +153,7 @@ def run(chk: core.Check, replay_path=None, **_):
     for x in cases[:: max(1, len(cases) // 4)][:4]:
         chk.sample(x)
     core.reset_world()
-    chk.require_strata(["missing_calibration_given_as_bare_zero", "row_of_an_inclined_shot", "rejected", "FFP", "SFP", "LWIR", "pref_adjustment_tangent_unit", "caller_redisplays_click",
+    chk.require_strata(["click_sizes_as_bare_numbers", "missing_calibration_given_as_bare_zero", "row_of_an_inclined_shot", "rejected", "FFP", "SFP", "LWIR", "pref_adjustment_tangent_unit", "caller_redisplays_click",
                         "target_and_calibration_in_different_units",
                         "distance_display_and_preference_changed_after_construction"])
     chk.extra["unit_variants"] = [f"{a[0]}/{d[0]}" for a, d in variants]
